@@ -5,6 +5,8 @@ Local Open Scope Z_scope.
 Definition search_factor : Z := 4.
 (* util.go readerContainsAny: halflen := bufflen / D *)
 Definition search_half_div : Z := 2.
+(* path.go Walk: 1 iff a final filepath.SkipDir is converted into nil (as path/filepath.Walk does) *)
+Definition walk_skipdir_to_nil : Z := 1.
 (* os.O_RDONLY on the build platform *)
 Definition o_rdonly : Z := 0.
 (* os.O_WRONLY on the build platform *)
